@@ -9,6 +9,15 @@ sys.path.insert(0, VERIF)
 from harness.core import CHECKS  # noqa
 
 TABLE = {
+    "C05": dict(
+        category="exploration", design_ref="3/C05",
+        technique="complete enumeration of the finite configuration matrix (name x allow-list shape x passing style x operation x entry point) plus Hypothesis rule-based state machine over long-lived registries, model-based oracle; consumed tokens minted by the independent reference",
+        text="Part A enumerates ~11 000 cells: every registered and several unknown / near-miss / non-string alg, enc and zip names x 7 allow-list shapes x algorithms=/registry=/default x "
+             "sign/verify/encrypt/decrypt x compact/flattened/general/RFC 7797/jwt entry points, each compared with the model (allowed iff listed, or recommended when no list; 'none' never "
+             "verifies; refused well-typed names raise UnsupportedAlgorithmError). Part B runs 900 generated histories x 30 steps over shared registry objects created with different lists to "
+             "expose state leaking between calls. The matrix is exhaustive for the listed shapes; histories are sampled.",
+        note="recommended set hard-coded from the statement (equals docs/guide/algorithms.rst); [] allow-list is DONT_CARE for recommended names; draft algorithms registered explicitly once",
+    ),
     "C09": dict(
         category="exploration", design_ref="3/C09",
         technique="Hypothesis-generated claims/headers/datetimes with an encode-decode round-trip oracle (typed JSON equality, NumericDate model) and a must-raise oracle for validly signed non-object payloads minted by the reference",
